@@ -6,6 +6,7 @@ import ast
 from .. import astq
 from ..model import ClassRef
 from ..core import AnalysisError
+from . import common
 
 LEVEL = 'other'
 EXPLANATION = (
@@ -129,6 +130,11 @@ def run(ctx, rep):
     rep.floor('C09.R2', 'scoring functions', nsc, 12)
 
     fairness_rule(ctx, rep)
+    R6 = rep.rule('C09.R6', 'premise order / multiplicity independence of what rules are applied to: the helper bookkeeping (tracked nodes, the constants '
+                            'and worlds still to be applied) folded as inductive steps over every arrival order -- no constant, world or node is lost because of '
+                            'when it arrived (the C04.R7 folds)')
+    n6 = common.bookkeeping(ctx, rep, R6, 'C09.R6')
+    rep.floor('C09.R6', 'bookkeeping cases', n6, 90)
     R3 = rep.rule('C09.R3', 'build() is the step() loop')
     b = m.func(TAB, 'Tableau.build')
     si = m.func(TAB, 'Tableau.stepiter')
